@@ -27,6 +27,13 @@ PTV  == Box("P", <<MTV, M3>>)
 \* ---- A. comb ------------------------------------------------------------------------------------
 \* the cases that exist: a fractional delay has to be linearized; delay 0 needs a constant alpha with
 \* 1 - alpha # 0; a negative delay only for ff with a non-zero constant (the refusal); memory only with feedback
+\* magnitude guard (TLC has 32-bit integers): the denominators of a feedback comb grow by den(alpha) * den(delay)
+\* per recursion; cases whose bound exceeds 2^13 within MaxLen samples are left to the M3 records of shorter runs
+RECURSIVE IPow(_, _), MaxDen(_, _)
+IPow(b, e)     == IF e = 0 THEN 1 ELSE b * IPow(b, e - 1)
+MaxDen(s, i)   == IF i > Len(s) THEN 1 ELSE MaxOf(s[i][2], MaxDen(s, i + 1))
+DenOf(al)      == IF al.k = "c" THEN al.v[2] ELSE MaxDen(al.s, 1)
+SmallEnough(D, al) == IPow(DenOf(al) * D[2], IF RLt(D, ROne) THEN MaxLen ELSE MaxLen \div RFloor(D)) <= 8192
 ParamOk(f, D, al, l, mm) ==
   /\ CombRunnable(f, D, l)
   /\ (D = RZero => al.k = "c" /\ al.v # ROne /\ al.v # R(-1))    \* (1 - 1: no filter; 1 + -1: the all-zero filter of C04)
@@ -34,6 +41,7 @@ ParamOk(f, D, al, l, mm) ==
   /\ (al.k = "s" => RLe(ROne, D))                       \* (a stream alpha below one sample of delay would vary a0)
   /\ (RLt(D, RZero) => f = "ff" /\ al.k = "c" /\ al.v # RZero /\ RIsInt(D))
   /\ (mm = "exact" => f # "ff")
+  /\ (f # "ff" /\ RLt(RZero, D) => SmallEnough(D, al))
 CombCases(forms, delays, alphas, lins, mems, zeros) ==
   {CombCase(t[1], t[2], t[3], "inf", t[4], t[5], t[6]) :
       t \in {u \in forms \X delays \X alphas \X lins \X mems \X zeros : ParamOk(u[1], u[2], u[3], u[4], u[5])}}
@@ -106,7 +114,8 @@ FPolysQ(u)  == { << FT(-17, 4, C(1)) >>, << FT(-3, 2, C(1)) >>, << FT(1, 2, C(1)
 FPolysT(u)  == FPolysQ(u) \cup { << FT(7, 4, C(1)), FT(9, 4, C(1)) >>, << FT(-7, 2, CH), FT(-5, 2, C(1)) >>, << FT(11, 4, C(-2)) >>,
                                  << FT(0, 1, C(1)), FT(1, 4, C(1)), FT(1, 2, C(1)), FT(3, 4, C(1)), FT(1, 1, C(1)) >> }
 LinCases(fps, dens) == {[kind |-> "lin", n |-> a, d |-> b] : a \in fps, b \in dens}
-LinDens(u)  == { One1, << FT(0, 1, C(1)), FT(3, 2, Const(<<-1, 2>>)) >>, << FT(0, 1, C(2)), FT(9, 4, C(1)) >> }
+LinDens(u)  == { One1, << FT(0, 1, Const(<<-1, 4>>)), FT(3, 4, C(1)) >>,       \* (tap 0 cancels: the result is shifted)
+                 << FT(0, 1, C(1)), FT(3, 2, Const(<<-1, 2>>)) >>, << FT(0, 1, C(2)), FT(9, 4, C(1)) >> }
 
 \* ---- D. designed filters ------------------------------------------------------------------------
 SubsetsOfSeq(s) == SUBSET {s[i] : i \in DOMAIN s}
